@@ -158,12 +158,14 @@ Theorem C10_sbml_numbers_refuted :
       map (fun rr => r_lb (fst rr)) (sm_rxns m) = [Fin ((-6004799503160661) # 18014398509481984)].
 Proof. exact sbml_numbers_refuted. Qed.
 
-Theorem C10_sbml_group_gene_member_refuted :
-  exists c m, RT c m = Err EKey /\
-    OKB c (mkSModel (sm_id m) (sm_name m) (sm_mets m) (sm_rxns m) (sm_genes m) (sm_comps m) (sm_max m)
-                    (map (fun g => mkGroup (gr_id g) (gr_name g) (gr_kind g)
-                                           (filter (fun p => negb (fst p =? 0)) (gr_members g))) (sm_groups m))) = true.
-Proof. exact sbml_group_gene_member_refuted. Qed.
+(* a group with a gene among its members (unreadable before /repo ed33fe7) is inside sbml_ok with the repaired
+   reader; a gene written like a group (gene x, group x -> G_x) is not *)
+Example C10_sbml_group_gene_member_ok :
+  let m := model mets_ab [(rxn "R1" st_ab (Fin 0) (Fin (1000 # 1)) 1, Some (G "g1"))] [gene "g1" "n"]
+                 [grp "g" [(0, S "g1"%string); (2, S "R1"%string)]] in
+  (if sb_sidmap_genes then OKB cfg0 m else negb (OKB cfg0 m)) = true /\
+  (if sb_sidmap_genes then rres_eqb (RT cfg0 m) (Ok (NORM m)) else true) = true.
+Proof. exact sbml_group_gene_member_ok. Qed.
 
 Theorem C10_sbml_duplicate_sid_refuted :
   (exists c m d, OKB c m = true /\ m_write c m = Ok d /\ nodupb (core_sids d) = false /\
